@@ -109,6 +109,35 @@ func ruleF2(c *Ctx) {
 			}
 		}
 	}
+	// nothing else is fatal: every `return true` is the true branch of an errors.Is test of the
+	// relay's error against a sentinel error variable (a handler's own error must veto the request)
+	nTrue := 0
+	for _, r := range returnsOf(f) {
+		for _, v := range returnValues(r, 0) {
+			if !isConstBool(v, true) {
+				if _, isC := v.(*ssa.Const); !isC {
+					c.violate("F2", "only-sentinels/computed", r.Pos(), "isFatalError is decided by sentinel tests only", "isFatalError returns a computed value")
+				}
+				continue
+			}
+			nTrue++
+			okS := false
+			for _, cd := range controls(r.Block()) {
+				cd = normCond(cd)
+				if call, ok := cd.V.(*ssa.Call); ok && cd.Pol {
+					if g := m.callee(call.Common()); g != nil && g.String() == "errors.Is" && call.Call.Args[0] == ssa.Value(f.Params[0]) {
+						if u, ok := call.Call.Args[1].(*ssa.UnOp); ok {
+							if _, isG := u.X.(*ssa.Global); isG {
+								okS = true
+							}
+						}
+					}
+				}
+			}
+			c.ok("F2", fmt.Sprintf("only-sentinels#%d", nTrue), r.Pos(), okS, "this `return true` of isFatalError is the true branch of errors.Is(err, <sentinel>)",
+				"an error is classified as fatal by something other than errors.Is against a sentinel (e.g. a status code that a plugin's handler can return): such a handler error drops the plugin and lets the request continue instead of vetoing it")
+		}
+	}
 	for _, w := range []string{"github.com/containerd/ttrpc.ErrClosed", "github.com/containerd/ttrpc.ErrServerClosed", "github.com/containerd/ttrpc.ErrProtocol", "context.DeadlineExceeded"} {
 		c.ok("F2", w, f.Pos(), got[w], "isFatalError classifies "+w+" as fatal for the plugin", "this error is not classified as fatal: a plugin failing this way vetoes the request instead of being dropped")
 	}
